@@ -153,7 +153,7 @@ class SimEntropy:
         while f is not None and depth < 12:
             fn = f.f_code.co_filename
             if "/cola/" in fn and "/verif/" not in fn:
-                if len(self.touch) < 64:
+                if len(self.touch) < 64 and (not self.touch or self.touch[-1][1] != f"{os.path.relpath(fn, REPO) if fn.startswith(REPO) else fn}:{f.f_lineno}"):
                     self.touch.append((kind, f"{os.path.relpath(fn, REPO) if fn.startswith(REPO) else fn}:{f.f_lineno}"))
                 break
             f = f.f_back
